@@ -232,11 +232,48 @@ pub fn random(r: &mut Rng, n: usize) -> B {
 }
 
 /// a mixed draw
+/// digit sequences with internal symmetry, at a random digit granularity: one random digit in every position,
+/// a palindromic digit sequence (digit i == digit N-1-i), or a random value with one digit copied onto another.
+/// (Loops that exchange, compare or combine pairs of digits behave specially when two digits are equal.)
+pub fn repeated(r: &mut Rng, n: usize) -> B {
+    let g = *r.pick(&[1usize, 2, 4, 8]);
+    let mut v = random(r, n);
+    let nd = n / g;
+    if nd < 2 {
+        return v;
+    }
+    match r.below(3) {
+        0 => {
+            for k in 1..nd {
+                for t in 0..g {
+                    v[k * g + t] = v[t];
+                }
+            }
+        }
+        1 => {
+            for k in 0..nd / 2 {
+                for t in 0..g {
+                    v[(nd - 1 - k) * g + t] = v[k * g + t];
+                }
+            }
+        }
+        _ => {
+            let i = r.below(nd as u64) as usize;
+            let j = r.below(nd as u64) as usize;
+            for t in 0..g {
+                v[j * g + t] = v[i * g + t];
+            }
+        }
+    }
+    v
+}
+
 pub fn any(r: &mut Rng, n: usize, bnd: &[B]) -> B {
-    match r.below(10) {
+    match r.below(11) {
         0..=2 => r.pick(bnd).clone(),
         3..=5 => extreme(r, n),
         6..=7 => short(r, n),
+        8 => repeated(r, n),
         _ => random(r, n),
     }
 }
